@@ -387,6 +387,10 @@ func RunBMC(meta *Tracer, traces [][][]TraceEvent, solverBin string, timeoutMs i
 		return res
 	}
 	defer s.Close()
+	// whole-program watchdog: building and asserting the unrolling can itself take the solver long
+	// (it simplifies as it reads); past two query time limits the program is given up as undecided
+	watchdog := time.AfterFunc(time.Duration(2*timeoutMs+30000)*time.Millisecond, func() { s.Kill() })
+	defer watchdog.Stop()
 	b.s = s
 	b.pr = smt.NewPrinter()
 	assert := func(t *smt.Term) {
